@@ -119,8 +119,8 @@ def _run(chk, tier, model_ok):
         else:
             chk.violation("input", {"module": PARAM_PROBE, "command": "instantiate In::Equals",
                                     "observed": plog[-1500:], "expected": "Equals compiles"}, key=KEY_PARAM)
-    cases, dist = viewcorr.make_cases(chk, r, 9 if quick else 100, corpus_prop=PROP,
-                                      testdata=viewcorr.TESTDATA[:6] if quick else viewcorr.TESTDATA)
+    cases, dist = viewcorr.make_cases(chk, r, 14 if quick else 100, corpus_prop=PROP,
+                                      testdata=viewcorr.TESTDATA[:8] if quick else viewcorr.TESTDATA)
     failed = viewcorr.build_cases(cases, features=("eq", "cp"), workers=8, eq_params_ok=eq_params_ok,
                                   std="c++14" if quick else "c++17")
     for c in failed:
